@@ -438,6 +438,52 @@ func Run(ctx *common.Ctx) int {
 	cmp.Count("linear complexity m=500,1000 (every complexity L=0..m via unit impulses, LFSR outputs of degree 1..64 and complements) and m=5000 (selected L)", lcEvals)
 	cmp.Sample(map[string]interface{}{"family": "linear complexity", "example": "m=500: block 0^499 1 (complexity 500, the lone final one)", "distinct_(m,L)_pairs_at_large_m": lcClasses.Len(), "oracle_selfcheck_blocks_BM_vs_bruteforce": bmChecked})
 
+	// ---------- the byte-oriented entry points and registry runners of the three tests ----------
+	// (the bytes go through the shared byte-to-bit conversion; compared with the reference on the MSB-first expansion)
+	{
+		var bEvals int64
+		blens := []int{128, 129, 1121, 2500, 4096, 8191, 125000}
+		common.ParFor(len(blens), func(i int) {
+			L := blens[i]
+			for sd := 0; sd < 3; sd++ {
+				data := enum.FillerBytes(L, uint64(ctx.Seed)+uint64(L)+uint64(sd))
+				if sd == 2 {
+					for k := range data {
+						data[k] &= 0x7F
+					}
+				}
+				bits := refmodel.Bits(data)
+				desc := func() interface{} { return map[string]interface{}{"bytes": L, "filler_seed": ctx.Seed + int64(L) + int64(sd), "entry": "byte-oriented"} }
+				type bc struct {
+					name string
+					f    func() (float64, float64)
+					ref  func() (float64, float64)
+					min  int
+				}
+				for _, c := range []bc{
+					{"MatrixRankTestBytes(32,32)", func() (float64, float64) { return r.MatrixRankTestBytes(data, 32, 32) }, func() (float64, float64) { return refmodel.MatrixRank(bits) }, 128},
+					{"MatrixRank(runner)", func() (float64, float64) { x := r.MatrixRank(data); return x.P, x.Q }, func() (float64, float64) { return refmodel.MatrixRank(bits) }, 128},
+					{"LinearComplexityTestBytes(m=500)", func() (float64, float64) { return r.LinearComplexityTestBytes(data, 500) }, func() (float64, float64) { return refmodel.LinearComplexity(bits, 500) }, 128},
+					{"LinearComplexity(runner)", func() (float64, float64) { x := r.LinearComplexity(data); return x.P, x.Q }, func() (float64, float64) { return refmodel.LinearComplexity(bits, 500) }, 128},
+					{"MaurerUniversalTestBytes", func() (float64, float64) { return r.MaurerUniversalTestBytes(data) }, func() (float64, float64) { return refmodel.Maurer(bits) }, 1121},
+					{"MaurerUniversal(runner)", func() (float64, float64) { x := r.MaurerUniversal(data); return x.P, x.Q }, func() (float64, float64) { return refmodel.Maurer(bits) }, 1121},
+				} {
+					if L < c.min {
+						continue
+					}
+					var p, q float64
+					if pv := common.Catch(func() { p, q = c.f() }); pv != nil {
+						cmp.Panic(c.name, pv, desc())
+						continue
+					}
+					wp, wq := c.ref()
+					cmp.PQ(c.name, uint64(L)<<8|uint64(sd), p, q, wp, wq, desc)
+					atomic.AddInt64(&bEvals, 1)
+				}
+			}
+		})
+		cmp.Count("byte-oriented entry points and registry runners of rank / linear complexity / Maurer on fillers of 128..125000 bytes", bEvals)
+	}
 	// ---------- Maurer ----------
 	var mEvals int64
 	inits := []string{"counter", "constant", "counter-minus-one"}
